@@ -19,6 +19,8 @@ type IdealOT struct {
 	// Sent / Got record what the sender offered and the receiver obtained.
 	Sent [][]ot.Wire
 	Got  [][]ot.Label
+	// Notify, when set, receives one (non-blocking) signal per Send.
+	Notify chan struct{}
 }
 
 func NewIdealOT() *IdealOT { return &IdealOT{ch: make(chan []ot.Wire, 16)} }
@@ -30,6 +32,12 @@ func (o *IdealOT) InitReceiver(io ot.IO) error { return nil }
 func (o *IdealOT) Send(wires []ot.Wire) error {
 	w := append([]ot.Wire(nil), wires...)
 	o.Sent = append(o.Sent, w)
+	if o.Notify != nil {
+		select {
+		case o.Notify <- struct{}{}:
+		default:
+		}
+	}
 	o.ch <- w
 	return nil
 }
